@@ -13,6 +13,11 @@ pub trait Replayable {
     fn apply(&mut self, act: &Value) -> Value;
     /// observable projection of the real object
     fn project(&self) -> Value;
+    /// the part of a return value that is a function of the calls made (replay_paths compares it across paths);
+    /// values the object draws at random are taken out here
+    fn stable(ret: &Value) -> Value {
+        ret.clone()
+    }
 }
 
 pub fn replay<R: Replayable>(edges_path: &str, out_path: &str, cfg: &Value) -> i32 {
@@ -157,7 +162,7 @@ pub fn replay_paths<R: Replayable>(edges_path: &str, out_path: &str, cfg: &Value
                 obj.apply(&edges[pi]["act"]);
             }
             let ret = obj.apply(&edges[ei]["act"]);
-            canon[ei] = Some((ret, obj.project()));
+            canon[ei] = Some((R::stable(&ret), obj.project()));
         }
     }
     // all paths, depth first; the subtrees below the first steps are walked in parallel
@@ -177,7 +182,7 @@ pub fn replay_paths<R: Replayable>(edges_path: &str, out_path: &str, cfg: &Value
             let after = obj.project();
             *paths += 1;
             if let Some((cret, cafter)) = &c.canon[ei] {
-                if (*cret != ret || *cafter != after) && diffs.len() < 200 {
+                if (*cret != R::stable(&ret) || *cafter != after) && diffs.len() < 200 {
                     diffs.push(json!({
                         "edge": ei, "all_paths": true,
                         "path": path.iter().map(|&pi| c.edges[pi]["act"].clone()).collect::<Vec<_>>(),
